@@ -54,6 +54,16 @@ def region(root, rel, from_pat, to_pat):
     return "\n".join(lines[a[-1]:b[0] + 1])
 
 
+def unavailable(spec):
+    """Stand-in for a slice that could not be cut from the current source: same
+    signature, diverging body.  Harnesses that call it become vacuous (their
+    kani::cover! witnesses are unsatisfiable) and are reported inconclusive;
+    harnesses of the same file that do not need the slice still run."""
+    name = spec.split()[0]
+    d = SLICES[name]
+    return d["prefix"] + "\n  kani::assume(false);\n  loop {}\n}"
+
+
 def generate(spec, root):
     name = spec.split()[0]
     if name not in SLICES:
@@ -212,7 +222,7 @@ register(
     "bool_should_default",
     file="searchlite-core/src/api/reader.rs",
     after=r"^\s*fn matches_node\(&self, node: &QueryMatcher, doc_id: DocId\) -> bool \{",
-    start=r"^\s*let min_should = minimum_should_match\b",
+    start=r"^\s*let min_should\b",
     end=r"^\s*should_matches >= min_should",
     include_end=True,
     prefix=("/// SLICE (regenerated from the current source): the last statements of the Bool arm of\n"
@@ -240,7 +250,7 @@ register(
     after=r"^\s*pub\(crate\) fn evaluate\(&self, leaves: &\[f32\]\) -> f32 \{",
     start=r"^\s*if children\.is_empty\(\) \{",
     end=r"^      \}$",
-    subst=[(r"child\.evaluate\(leaves\)", "*child")],
+    subst=[(r"\b(\w+)\.evaluate\(leaves\)", r"*\1")],
     prefix=("/// SLICE (regenerated from the current source): the body of the DisMax arm of\n"
             "/// `ScoreExpr::evaluate`, with the already evaluated child scores as input.\n"
             "#[allow(unused_variables)]\n"
